@@ -328,7 +328,52 @@ func SerResult(res cl.Result, order []string, withStops bool) (sx string, err er
 
 type Leaf int
 
+// emptyResult: the rule matched without consuming a token (nil, or lists without any token).
+func emptyResult(r any) bool {
+	switch x := r.(type) {
+	case nil:
+		return true
+	case []any:
+		for _, e := range x {
+			if !emptyResult(e) {
+				return false
+			}
+		}
+		return true
+	}
+	return false
+}
+
+// FailingProc reports whether the spec is a return procedure that fails at run time.
+func FailingProc(spec string) bool { return strings.HasPrefix(spec, "x") }
+
 func ProcOf(spec string) any {
+	switch spec {
+	// failing return procedures, by the matcher's conventions (Var.Match recovers the panic):
+	case "xs": // panic(string) on an empty match -> runtime ("Dyn") error
+		return matcher.RetProc(func(r any) any {
+			if emptyResult(r) {
+				panic("empty match rejected")
+			}
+			return r
+		})
+	case "xS": // panic(string) always
+		return matcher.RetProc(func(r any) any { panic("rejected") })
+	case "xd": // tpl.Panic (a *matcher.Error with Dyn set) on an empty match
+		return matcher.RetProc(func(r any) any {
+			if emptyResult(r) {
+				tpl.Panic(1, "empty match rejected")
+			}
+			return r
+		})
+	case "xe": // panic(error value) on an empty match -> ordinary error
+		return matcher.RetProc(func(r any) any {
+			if emptyResult(r) {
+				panic(fmt.Errorf("empty match rejected"))
+			}
+			return r
+		})
+	}
 	switch {
 	case spec == "f":
 		return matcher.RetProc(func(r any) any {
